@@ -54,6 +54,78 @@ type userArr struct{ g, k int }
 
 func (a userArr) MarshalZerologArray(arr *zerolog.Array) { arr.Int(a.g).Int(a.k) }
 
+// gatePhase: the global level is switched between Disabled and Trace by another goroutine while events are being built.
+// Whether an event is emitted is decided ONCE, when it is created; an event that was emitted is the whole event - the
+// fields a Func callback adds included - whatever the switch says by the time the chain reaches them.
+func gatePhase() []string {
+	bad := []string{}
+	for r := 0; r < 6; r++ {
+		s := &sink{}
+		base := zerolog.New(s)
+		G, K := 8, 400
+		stop := make(chan struct{})
+		done := make(chan struct{})
+		go func() {
+			defer close(done)
+			for i := 0; ; i++ {
+				select {
+				case <-stop:
+					zerolog.SetGlobalLevel(zerolog.TraceLevel)
+					return
+				default:
+				}
+				if i%2 == 0 {
+					zerolog.SetGlobalLevel(zerolog.Disabled)
+				} else {
+					zerolog.SetGlobalLevel(zerolog.TraceLevel)
+				}
+				if i%8 == 7 {
+					runtime.Gosched()
+				}
+			}
+		}()
+		var wg sync.WaitGroup
+		for g := 0; g < G; g++ {
+			wg.Add(1)
+			go func(g int) {
+				defer wg.Done()
+				l := base.With().Int("child", g).Logger()
+				for k := 0; k < K; k++ {
+					l.Info().Int("g", g).Int("k", k).Func(func(e *zerolog.Event) { e.Int("f", g*1000+k) }).Msg("m")
+				}
+			}(g)
+		}
+		wg.Wait()
+		close(stop)
+		<-done
+		seen := map[string]int{}
+		for _, ln := range s.lines {
+			var m map[string]interface{}
+			if !strings.HasSuffix(ln, "\n") || json.Unmarshal(bytes.TrimSpace([]byte(ln)), &m) != nil {
+				bad = append(bad, fmt.Sprintf("gate phase: torn or invalid line (%d bytes)", len(ln)))
+				continue
+			}
+			g, k := int(m["g"].(float64)), int(m["k"].(float64))
+			seen[fmt.Sprintf("%d/%d", g, k)]++
+			if f, ok := m["f"].(float64); !ok || int(f) != g*1000+k {
+				bad = append(bad, fmt.Sprintf("gate phase: event %d/%d was emitted without the field its Func callback adds (f=%v)", g, k, m["f"]))
+			}
+			if c, ok := m["child"].(float64); !ok || int(c) != g {
+				bad = append(bad, fmt.Sprintf("gate phase: event %d/%d carries child=%v", g, k, m["child"]))
+			}
+		}
+		for key, c := range seen {
+			if c != 1 {
+				bad = append(bad, fmt.Sprintf("gate phase: event %s written %d times", key, c))
+			}
+		}
+		if len(bad) > 5 {
+			break
+		}
+	}
+	return bad
+}
+
 func main() {
 	bad := []string{}
 	rounds := 12
@@ -167,6 +239,7 @@ func main() {
 			}
 		}
 	}
+	bad = append(bad, gatePhase()...)
 	bad = append(bad, consolePhase()...)
 	if len(bad) > 10 {
 		bad = bad[:10]
